@@ -9,9 +9,11 @@ import gen_lib as GL
 NS = "EngineModel.Properties.C15CratesV2."
 LEAN_MODULES = ["Properties.C15CratesV2"]
 THEOREMS = [NS + t for t in [
-    "v2c_C15_no_ub", "v2c_C15_reachable_no_ub", "v2c_C15_walk_terminates", "v2c_C15_view_terminates",
+    "v2c_C15_no_ub", "v2c_C15_reachable_no_ub", "v2c_C15_cyclic_table_counterexample",
+    "v2c_C15_guard_dropped_counterexample", "v2c_C15_walk_terminates", "v2c_C15_view_terminates",
     "v2c_C15_queries_no_ub", "v2c_C15_ordered_queries_no_ub", "v2c_C15_reachable_queries_no_ub",
-    "v2c_C15_table_level_counterexample", "v2c_C15_stale_crate", "v2c_C15_nonexistent_args"]]
+    "v2c_C15_table_level_counterexample", "v2c_C15_stale_crate", "v2c_C15_stale_crate_reachable",
+    "v2c_C15_nonexistent_args"]]
 ASSUMPTIONS = [
     "crates 2.x: undefined-behaviour sources made explicit: the missing-tail dereference of sort_ids / get_for_list "
     "(oob_read, inside the model Db/Chain.lean), the unbounded do-while of the same functions and the recursive view "
